@@ -388,3 +388,24 @@ PROPS['C10'] = {
     'trusted': [C10_STUBS],
     'outside': ['more than 3 tokens in total in the quick tier (2x2 thorough)', 'lines/columns >= 2^30', 'contents/sources beyond "untouched" struct fields'],
 }
+
+_C12_SMALL = ['header ends with LF', 'bare CR', 'no header', 'short read', 'three inner reads', 'CRLF header']
+
+PROPS['C12'] = {
+    'title': 'Reader, slice and data-URL decoding agree, however the stream is chunked',
+    'functions': ['decoder::StripHeaderReader::read', 'decoder::StripHeaderReader::strip_head_read', 'decoder::strip_junk_header',
+                  'decoder::is_junk_json'],
+    'harnesses': [
+        H('c12_hdr_n0_b2', 'decoder', 'quick', 600, 8, 'empty input, caller buffer 2', nocover=True),
+        H('c12_hdr_n1_b2', 'decoder', 'quick', 1200, 12, 'every 1-byte input, caller buffer 2, every chunking', nocover=True),
+        H('c12_hdr_n2_b2', 'decoder', 'quick', 2400, 14, 'every 2-byte input, caller buffer 2, every chunking of the inner stream into reads of 1..2 bytes', nocover=True),
+        H('c12_hdr_n3_b2', 'decoder', 'thorough', 7200, 30, 'every 3-byte input, caller buffer 2, every chunking into inner reads of 1..2 bytes'),
+        H('c12_hdr_n3_b3', 'decoder', 'thorough', 7200, 30, 'every 3-byte input, caller buffer 3, every chunking into inner reads of 1..3 bytes'),
+    ],
+    'assumptions': ['the JSON stage behind both paths is the same function (serde_json + decode_common), so agreement of the byte streams handed '
+                    'to it is what can differ; the slice path keeps the LF that ends the header (JSON whitespace), the reader drops it',
+                    'inner reader contract: returns 1..=min(remaining, buffer) bytes, 0 only at end of input'],
+    'trusted': [],
+    'outside': ['JSON decoding after the header', 'is_sourcemap* detection predicates', 'data URLs (base64)', 'inputs longer than 3 bytes '
+                '(4-byte inputs, needed for a read boundary between CR and LF followed by payload, exceed 30 GB)'],
+}
